@@ -63,6 +63,13 @@ CHECKS = {
             "changes under every substitution and every C/G/T indel, and decode with the original check rejects; tied to "
             "dsw.set_vt / decode by the correspondence check incl. every single edit of sampled walks.",
             "Coq proof (sum mod 4 argument, radix rendering) + extraction-based correspondence", "5 C07"),
+    "C08": ("Theorems for every graph that graph generation can return (legal, vertex-induced, k >= 1), every walk and EVERY single "
+            "substitution / insertion / deletion at an interior position in [k, n-2k): the edit is detected exactly when the "
+            "corrupted strand is no longer a walk, exactly once, and the original walk is among the candidates (check absent or "
+            "the check of the original); ~1150 lines of Coq following the scan loop, the look-back window and the "
+            "recombination.  PARTIAL: the induction over several separated edits is not proved; that clause is decided by "
+            "correspondence + oracle on sampled admissible edit sets of size 2..4.",
+            "Coq proof (state tracking on vertex-induced de Bruijn graphs, scan-loop invariants) + extraction-based correspondence", "5 C08"),
     "C09": ("Theorems: on a strand that is already a walk repair returns exactly that strand (or nothing if the supplied check "
             "disagrees) with zero detected errors, for every shaped accessor / option / heap limit; whenever repair returns, the "
             "candidate list is strictly increasing (sorted, duplicate-free) and every candidate reproduces the supplied check.",
@@ -82,6 +89,14 @@ CHECKS = {
             "representations with the end points of all d-step walks; tied to dsw by the correspondence check on random arc "
             "subsets and illegal single-arc matrices.",
             "Coq proof + extraction-based correspondence", "5 C14"),
+    "C17": ("PARTIAL.  Theorems on the binary64 model (Coq primitive floats): every eigenvalue estimate is <= 4 (capacity <= 2; via "
+            "Flocq and the standard library's FloatAxioms), arc-less graphs give 0, graphs in which every live vertex has exactly "
+            "d live successors give exactly d in the single-start mode; integer Collatz-Wielandt theorems turn per-graph "
+            "certificates into brackets on the walk-growth rate for every n.  The model is compared BIT-FOR-BIT with NumPy "
+            "(every per-iteration value).  The convergence clause (within 1e-4 for every graph with a 0.9 gap) is NOT a theorem: "
+            "it is decided per sampled graph against kernel-checked brackets; the single-start clause is known finding F9.",
+            "Coq proof (Flocq monotone rounding; exact small-integer float arithmetic; Collatz-Wielandt) + vm_compute "
+            "evaluation of the float model and of certificates", "5 C17"),
     "C18": ("Theorems: argsort yields a permutation for any keys, digit->position and position->digit are inverse for any table "
             "row, for permutation rows the code's choice is the rank-selected live arc and digit<->arc is a bijection; the 24 x "
             "15 space is swept exhaustively inside Coq; the NumPy RNG is NOT modelled, so reproducibility and the table's "
@@ -95,6 +110,17 @@ CHECKS = {
             "str and int code paths (also when truncating), fixed-width rendering with 0/A padding; fuel of the while loops "
             "proved sufficient; tied to dsw by the correspondence check on both code paths.",
             "Coq proof (fuel-bounded loops refined to radix expansion) + extraction-based correspondence", "5 C16"),
+    "C19": ("Theorems for every legal accessor of order k >= 1 with its own latter map and every sequence of calls (any flags) up to "
+            "the first call that raises: each returning call removes exactly one existing arc, of maximum intersection score, "
+            "changes no other entry, and hands back a legal accessor together with exactly its latter map; scores are "
+            "non-negative, accessor-shaped and positive only on arcs.  Tied to dsw by histories of removals compared after every call.",
+            "Coq proof (invariant by induction over the call list) + extraction-based correspondence of whole histories", "5 C19"),
+    "C20": ("PARTIAL.  Theorems on the model's world: over any history without arc removal the shared arguments are unchanged and "
+            "every result equals the result on the initial arguments; a call depends only on the slots it names; arc removal "
+            "touches only its two slots.  These are true of any functional model by construction; what gives the check teeth is "
+            "the run-time history correspondence: random interleavings on shared objects, byte-level argument snapshots around "
+            "every call, verbose on/off, re-execution in a fresh process, and every call compared with the stateless model.",
+            "Coq proof over the API state machine + run-time history correspondence (snapshots, fresh process, verbose)", "5 C20"),
 }
 
 NOT_YET = {}
